@@ -177,6 +177,9 @@ func (s *ECDHSession) Parameter(rand io.Reader, _ *rsa.PublicKey) ([]byte, error
 // SetParameter sets the received parameter from the client. This method is
 // only called by a server.
 func (s *ECDHSession) SetParameter(xB []byte, _ *rsa.PrivateKey) error {
+	if s.priv == nil {
+		return fmt.Errorf("key exchange has no private key (already completed?)")
+	}
 	s.xB = xB
 
 	// Compute session key
